@@ -218,6 +218,29 @@ impl RepliconClient {
     }
 }
 
+#[cfg(replicon_verif)]
+impl RepliconClient {
+    /// Sizes the receive storage like [`ClientPlugin`] does.
+    pub fn verif_setup_server_channels(&mut self, channels_count: usize) {
+        self.setup_server_channels(channels_count);
+    }
+
+    /// Returns the buffered received messages of every channel without draining them.
+    pub fn verif_received(&self) -> Vec<Vec<Bytes>> {
+        self.received_messages.clone()
+    }
+
+    /// Returns the buffered outgoing messages without draining them.
+    pub fn verif_sent(&self) -> Vec<(usize, Bytes)> {
+        self.sent_messages.clone()
+    }
+
+    /// Drains a channel like the receiving systems do.
+    pub fn verif_receive(&mut self, channel_id: usize) -> Vec<Bytes> {
+        self.receive(channel_id).collect()
+    }
+}
+
 /// Connection status of the [`RepliconClient`].
 #[derive(Clone, Copy, PartialEq, Debug, Default)]
 pub enum RepliconClientStatus {
